@@ -106,6 +106,16 @@ class Report:
     units: Dict[str, object] = field(default_factory=dict)
     notes: List[str] = field(default_factory=list)
     minima: Dict[str, int] = field(default_factory=dict)
+    errors: List[str] = field(default_factory=list)
+
+    def run(self, fn, *a, **k):
+        """Run one rule; an AnalysisError is recorded (exit 2 unless a violation was found by the
+        rules that did complete) instead of aborting the rules that follow."""
+        try:
+            return fn(*a, **k)
+        except AnalysisError as e:
+            self.errors.append(str(e))
+            return None
 
     def add(self, rule, construct, ok, detail="", loc="", nontrivial=True, latent=False):
         self.obs.append(Ob(rule, construct, bool(ok), detail, loc, nontrivial, latent))
@@ -116,7 +126,7 @@ class Report:
         self.minima[rule] = n
         have = sum(1 for o in self.obs if o.rule == rule)
         if have < n:
-            raise AnalysisError(
+            self.errors.append(
                 f"{self.prop}/{rule}: only {have} instance(s) found, {n} confirmed by hand on the "
                 f"pinned tree - anchor moved or analyser out of date")
 
